@@ -12,7 +12,9 @@ import (
 
 type frame struct {
 	fn     *ssa.Function
-	env    map[ssa.Value]Value
+	info   *fnInfo
+	env    []Value
+	set    []bool
 	defers []func()
 	result Value
 }
@@ -57,11 +59,70 @@ func (c *Ctx) get(f *frame, v ssa.Value) Value {
 	case *ssa.Builtin:
 		return x
 	}
-	r, ok := f.env[v]
-	if !ok {
+	idx, ok := f.info.index[v]
+	if !ok || !f.set[idx] {
 		c.errf("no value for %s (%T) in %s", v.Name(), v, f.fn)
 	}
-	return r
+	return f.env[idx]
+}
+
+// fnInfo caches per-function facts that are expensive to recompute per call.
+type fnInfo struct {
+	name      string
+	index     map[ssa.Value]int
+	n         int
+	intrinsic func(c *Ctx, args []Value) Value
+	pbReflect *types.Struct
+	skip      bool
+}
+
+func (c *Ctx) info(fn *ssa.Function) *fnInfo {
+	if fi, ok := c.fnInfos[fn]; ok {
+		return fi
+	}
+	fi := &fnInfo{name: fn.String(), index: map[ssa.Value]int{}}
+	add := func(v ssa.Value) {
+		if _, ok := fi.index[v]; !ok {
+			fi.index[v] = fi.n
+			fi.n++
+		}
+	}
+	for _, p := range fn.Params {
+		add(p)
+	}
+	for _, p := range fn.FreeVars {
+		add(p)
+	}
+	for _, b := range fn.Blocks {
+		for _, in := range b.Instrs {
+			if v, ok := in.(ssa.Value); ok {
+				add(v)
+			}
+		}
+	}
+	fi.intrinsic = c.intrinsics[fi.name]
+	if fn.Name() == "ProtoReflect" && fn.Signature.Recv() != nil && len(fn.Params) == 1 {
+		if pt, ok := fn.Signature.Recv().Type().(*types.Pointer); ok {
+			if st, ok := pt.Elem().Underlying().(*types.Struct); ok {
+				fi.pbReflect = st
+			}
+		}
+	}
+	if strings.Contains(fn.Name(), "_proto_init") && strings.HasPrefix(fn.Name(), "file_") {
+		fi.skip = true
+	}
+	c.fnInfos[fn] = fi
+	return fi
+}
+
+func (f *frame) put(v ssa.Value, x Value) {
+	idx := f.info.index[v]
+	f.env[idx] = x
+	f.set[idx] = true
+}
+
+func (c *Ctx) newFrame(fn *ssa.Function, fi *fnInfo) *frame {
+	return &frame{fn: fn, info: fi, env: make([]Value, fi.n), set: make([]bool, fi.n)}
 }
 
 func (c *Ctx) global(g *ssa.Global) *Value {
@@ -82,18 +143,15 @@ func (c *Ctx) global(g *ssa.Global) *Value {
 }
 
 func (c *Ctx) call(fn *ssa.Function, args []Value) Value {
-	name := fn.String()
-	if fn.Name() == "ProtoReflect" && len(args) == 1 && fn.Signature.Recv() != nil {
-		if pt, ok := fn.Signature.Recv().Type().(*types.Pointer); ok {
-			if st, ok := pt.Elem().Underlying().(*types.Struct); ok {
-				p, _ := args[0].(*Ptr)
-				return Iface{t: pbMsgType, v: pbMsg{p: p, st: st}}
-			}
-		}
+	fi := c.info(fn)
+	name := fi.name
+	if fi.pbReflect != nil && len(args) == 1 {
+		p, _ := args[0].(*Ptr)
+		return Iface{t: pbMsgType, v: pbMsg{p: p, st: fi.pbReflect}}
 	}
-	if in, ok := c.intrinsics[name]; ok && !c.bypass {
+	if fi.intrinsic != nil && !c.bypass {
 		c.curCallee = fn
-		return in(c, args)
+		return fi.intrinsic(c, args)
 	}
 	c.bypass = false
 	if fn.Blocks == nil {
@@ -103,11 +161,11 @@ func (c *Ctx) call(fn *ssa.Function, args []Value) Value {
 		return nil // nested package inits are skipped; each package is initialised lazily on first global access
 	}
 	c.explicitInit = false
-	if strings.Contains(fn.Name(), "_proto_init") && strings.HasPrefix(fn.Name(), "file_") {
+	if fi.skip {
 		return nil
 	}
 	c.depth++
-	c.stack = append(c.stack, name)
+	c.stack = append(c.stack, fn)
 	c.funcs[fn]++
 	if c.depth > c.depthMax {
 		if c.termBudget > 0 {
@@ -116,9 +174,9 @@ func (c *Ctx) call(fn *ssa.Function, args []Value) Value {
 		c.errf("call depth exceeded in %s", name)
 	}
 	defer func() { c.depth--; c.stack = c.stack[:len(c.stack)-1] }()
-	f := &frame{fn: fn, env: map[ssa.Value]Value{}}
+	f := c.newFrame(fn, fi)
 	for i, p := range fn.Params {
-		f.env[p] = args[i]
+		f.put(p, args[i])
 	}
 	return c.run(f)
 }
@@ -145,13 +203,13 @@ func (c *Ctx) run(f *frame) (result Value) {
 				panic(stepLimit{})
 			}
 			if p := in.Pos(); p != token.NoPos {
-				c.curPos = c.prog.Fset.Position(p).String()
+				c.curTok, c.posOverride = p, ""
 			}
 			switch i := in.(type) {
 			case *ssa.Phi:
 				for k, pb := range b.Preds {
 					if pb == prev {
-						f.env[i] = c.get(f, i.Edges[k])
+						f.put(i, c.get(f, i.Edges[k]))
 						break
 					}
 				}
@@ -186,7 +244,7 @@ func (c *Ctx) run(f *frame) (result Value) {
 				}
 				f.defers = nil
 			case *ssa.Panic:
-				panic(&goPanic{val: c.get(f, i.X), what: "explicit panic", pos: c.curPos})
+				panic(&goPanic{val: c.get(f, i.X), what: "explicit panic", pos: c.cp()})
 			case *ssa.Store:
 				ap := c.get(f, i.Addr).(*Ptr)
 				if _, local := i.Addr.(*ssa.Alloc); !local && ap != nil && ap.slot != nil {
@@ -201,7 +259,7 @@ func (c *Ctx) run(f *frame) (result Value) {
 				f.defers = append(f.defers, func() { c.invoke(fnv, args) })
 			case *ssa.DebugRef:
 			case ssa.Value:
-				f.env[i] = c.eval(f, i)
+				f.put(i, c.eval(f, i))
 			default:
 				c.errf("unsupported instr %T", in)
 			}
@@ -215,13 +273,16 @@ func (c *Ctx) run(f *frame) (result Value) {
 
 func (c *Ctx) load(p *Ptr) Value {
 	if p == nil {
-		panic(&goPanic{what: "nil pointer dereference", pos: c.curPos})
+		panic(&goPanic{what: "nil pointer dereference", pos: c.cp()})
 	}
 	if p.symIdx != nil {
 		// run-length compressed ite chain
 		var acc *Term
 		n := len(p.symElems)
 		w := p.symIdx.width
+		if ub := ubound(p.symIdx, 6); ub < uint64(n-1) {
+			n = int(ub) + 1 // the index is syntactically known to be below n
+		}
 		k := n - 1
 		for k >= 0 {
 			e, ok := p.symElems[k].(*Term)
@@ -249,7 +310,7 @@ func (c *Ctx) load(p *Ptr) Value {
 
 func (c *Ctx) store(p *Ptr, v Value) {
 	if p == nil {
-		panic(&goPanic{what: "nil pointer dereference (store)", pos: c.curPos})
+		panic(&goPanic{what: "nil pointer dereference (store)", pos: c.cp()})
 	}
 	if p.symIdx != nil {
 		nv := v.(*Term)
@@ -268,7 +329,7 @@ func (c *Ctx) prepCall(f *frame, cc *ssa.CallCommon) (Value, []Value) {
 	if cc.IsInvoke() {
 		recv := c.get(f, cc.Value).(Iface)
 		if recv.t == nil {
-			panic(&goPanic{what: "invoke on nil interface " + cc.Method.Name(), pos: c.curPos})
+			panic(&goPanic{what: "invoke on nil interface " + cc.Method.Name(), pos: c.cp()})
 		}
 		if recv.t == types.Type(pbMsgType) || recv.t == types.Type(pbFDType) {
 			var eargs []Value
@@ -307,7 +368,7 @@ func (c *Ctx) invoke(fnv Value, args []Value) Value {
 		return c.builtin(fn, args)
 	case *Closure:
 		if fn == nil {
-			panic(&goPanic{what: "call of nil func", pos: c.curPos})
+			panic(&goPanic{what: "call of nil func", pos: c.cp()})
 		}
 		if ec, ok := fn.fn.(engineCall); ok {
 			return ec()
@@ -325,12 +386,12 @@ func (c *Ctx) invoke(fnv Value, args []Value) Value {
 func (c *Ctx) callClosure(fn *ssa.Function, fv []Value, args []Value) Value {
 	c.depth++
 	defer func() { c.depth-- }()
-	f := &frame{fn: fn, env: map[ssa.Value]Value{}}
+	f := c.newFrame(fn, c.info(fn))
 	for i, p := range fn.Params {
-		f.env[p] = args[i]
+		f.put(p, args[i])
 	}
 	for i, p := range fn.FreeVars {
-		f.env[p] = fv[i]
+		f.put(p, fv[i])
 	}
 	return c.run(f)
 }
@@ -387,7 +448,7 @@ func (c *Ctx) eval(f *frame, in ssa.Value) Value {
 	case *ssa.FieldAddr:
 		p := c.get(f, i.X).(*Ptr)
 		if p == nil {
-			panic(&goPanic{what: "nil pointer dereference (field)", pos: c.curPos})
+			panic(&goPanic{what: "nil pointer dereference (field)", pos: c.cp()})
 		}
 		return &Ptr{slot: &(*p.slot).(*Struct).f[i.Field]}
 	case *ssa.Field:
@@ -405,7 +466,7 @@ func (c *Ctx) eval(f *frame, in ssa.Value) Value {
 			}
 		case *Ptr:
 			if xv == nil {
-				panic(&goPanic{what: "nil array pointer", pos: c.curPos})
+				panic(&goPanic{what: "nil array pointer", pos: c.cp()})
 			}
 			elems = (*xv.slot).(*Arr).e
 		default:
@@ -485,7 +546,7 @@ func (c *Ctx) eval(f *frame, in ssa.Value) Value {
 		s := c.get(f, i.X).(Slice)
 		n := int(i.Type().(*types.Pointer).Elem().Underlying().(*types.Array).Len())
 		if s.len < n {
-			panic(&goPanic{what: "slice to array pointer: too short", pos: c.curPos})
+			panic(&goPanic{what: "slice to array pointer: too short", pos: c.cp()})
 		}
 		slot := new(Value)
 		*slot = &Arr{e: s.back.e[s.off : s.off+n : s.off+n]}
@@ -579,7 +640,7 @@ func (c *Ctx) slice(f *frame, i *ssa.Slice) Value {
 		mx = length
 	}
 	if lo < 0 || lo > hi || hi > mx || mx > capacity {
-		panic(&goPanic{what: fmt.Sprintf("slice bounds out of range [%d:%d:%d] cap %d", lo, hi, mx, capacity), pos: c.curPos})
+		panic(&goPanic{what: fmt.Sprintf("slice bounds out of range [%d:%d:%d] cap %d", lo, hi, mx, capacity), pos: c.cp()})
 	}
 	switch xv := x.(type) {
 	case *Str:
